@@ -6,10 +6,11 @@ CONSTANTS
   Amts <- AnyAmts
   Genesis <- GenT
   HasLock <- NoLock4
-  Ops <- AllOps
+  Ops <- AllOpsJ
   MaxMut = 1000000
   MaxSnap = 1000000
   MaxDepth = 1000
+  MaxTx = 1000000
   FrameAddr <- FrNone
   NewAddrs <- NewNone
   XferTo <- XferNone
